@@ -113,6 +113,19 @@ type Config struct {
 	// a key that is only part of (target, length) is then wrong for the judged call — always in the unsound direction,
 	// because the judged call is the one that needs more zeros.
 	Before *Config `json:"before,omitempty"`
+	// CrowdTargets / CrowdLenStep (crowd runs, optional): call i of the crowd has its own target CrowdTargets[i] and a
+	// message i*CrowdLenStep bytes longer than call 0. Call 0's target is attainable (the oracle plants hashes with
+	// exactly the zeros call 0 needs in every worker's early batches), the other calls need more zeros than any hash of
+	// the oracle has: call 0 may find, the others must not.
+	CrowdTargets []uint64 `json:"crowd_targets,omitempty"`
+	CrowdLenStep int      `json:"crowd_len_step,omitempty"`
+	// CrowdSame: all calls of the crowd mine the very same message (identical requests, as when several parts of an
+	// application ask for the proof of work of one block at once). CrowdOrder: which call is cancelled next - "" the
+	// one with most workers waiting (highest index on a tie), "lowest" the lowest index first, "random".
+	CrowdSame  bool   `json:"crowd_same,omitempty"`
+	CrowdOrder string `json:"crowd_order,omitempty"`
+	// CrowdFinder: in a crowd with CrowdTargets, the index of the call whose target is attainable
+	CrowdFinder int `json:"crowd_finder,omitempty"`
 
 	dataCache []byte
 }
@@ -140,10 +153,21 @@ func (c *Config) data() []byte {
 // callData is the payload of call i of a crowd run: the calls mine different messages of the same length.
 func (c *Config) callData(i int) []byte {
 	d := append([]byte{}, c.data()...)
-	if len(d) > 0 {
+	for j := 0; j < i*c.CrowdLenStep; j++ {
+		d = append(d, byte(j*7+i))
+	}
+	if len(d) > 0 && !c.CrowdSame {
 		d[len(d)-1] ^= byte(i)
 	}
 	return d
+}
+
+// callTarget is the target of call i of a crowd run.
+func (c *Config) callTarget(i int) uint64 {
+	if i < len(c.CrowdTargets) {
+		return c.CrowdTargets[i]
+	}
+	return c.TargetBits
 }
 func (c *Config) msgLen() int {
 	if c.BigData > 0 {
@@ -303,10 +327,10 @@ func plantCarry(r *rand.Rand, c *Config, good string) string {
 				}
 				for _, lane := range []uint64{rem, rem + 1, 63} {
 					if lane <= 63 && lane >= rem {
-						c.Stub.Specials = append(c.Stub.Specials, Special{base + lane - 1<<32, good})
+						c.Stub.Specials = append(c.Stub.Specials, Special{Nonce: base + lane - 1<<32, Kind: good})
 					}
 				}
-				c.Stub.Specials = append(c.Stub.Specials, Special{st + uint64(64*(b+1)) + uint64(r.IntN(64)), "zero"})
+				c.Stub.Specials = append(c.Stub.Specials, Special{Nonce: st + uint64(64*(b+1)) + uint64(r.IntN(64)), Kind: "zero"})
 				return fmt.Sprintf("carry:2^32@worker%d,batch%d", kk+1, b)
 			}
 		}
@@ -328,10 +352,10 @@ func plantCarry(r *rand.Rand, c *Config, good string) string {
 		}
 		for _, lane := range []uint64{rem, rem + 1, 63} {
 			if lane <= 63 && lane >= rem {
-				c.Stub.Specials = append(c.Stub.Specials, Special{base + lane - mod, good})
+				c.Stub.Specials = append(c.Stub.Specials, Special{Nonce: base + lane - mod, Kind: good})
 			}
 		}
-		c.Stub.Specials = append(c.Stub.Specials, Special{start + uint64(64*(b+1)) + uint64(r.IntN(64)), "zero"})
+		c.Stub.Specials = append(c.Stub.Specials, Special{Nonce: start + uint64(64*(b+1)) + uint64(r.IntN(64)), Kind: "zero"})
 		return fmt.Sprintf("carry:2^%d@worker%d,batch%d", e, k, b)
 	}
 	return ""
@@ -344,7 +368,7 @@ var comboKinds = []string{"zeros:-1"}
 func plantFinds(r *rand.Rand, c *Config, goodKinds []string, maxBatch int) string {
 	w := c.Workers
 	add := func(k, batch, lane int, kind string) {
-		c.Stub.Specials = append(c.Stub.Specials, Special{workerStart(w, k) + uint64(64*batch+lane), kind})
+		c.Stub.Specials = append(c.Stub.Specials, Special{Nonce: workerStart(w, k) + uint64(64*batch+lane), Kind: kind})
 	}
 	lane := func() int { return pick(r, 0, 63, r.IntN(64), r.IntN(64)) }
 	plan := pick(r, "single", "single", "all-same-batch", "consecutive", "several", "first-batch-all", "combo", "combo")
@@ -450,6 +474,53 @@ func genCrowd(r *rand.Rand, prop string, version int) *Config {
 	c.Fault = FaultPlan{Kind: "cancel"}
 	c.StepCap = 1000
 	c.SharedWorker = r.IntN(3) != 0
+	if r.IntN(2) == 0 {
+		// calls that differ in what they need: call 0 needs z0 zeros and the oracle offers hashes with exactly z0 zeros
+		// in every worker's early batches; the other calls need at least two more (and may mine longer messages)
+		c.TargetNote = "crowd finds:one-call-only"
+		c.CrowdLenStep = pick(r, 0, 0, 1, 7, 300)
+		c.CrowdFinder = r.IntN(c.Crowd) // calls start in the order of their index: the finder may be first, last, in between
+		z0 := 2 + r.IntN(6)
+		for i := 0; i < c.Crowd; i++ {
+			z, Li := z0, L+i*c.CrowdLenStep
+			if i != c.CrowdFinder {
+				z = z0 + 2 + r.IntN(8)
+			}
+			if c.Version == 1 {
+				c.CrowdTargets = append(c.CrowdTargets, math.Float64bits(v1Target(Li, z, "safe")))
+			} else {
+				p := new(big.Int).Mul(ref.Pow3(z), big.NewInt(9))
+				p.Quo(p, big.NewInt(10))
+				t := p.Quo(p, big.NewInt(int64(Li)))
+				if t.Sign() == 0 {
+					t = big.NewInt(1)
+				}
+				c.CrowdTargets = append(c.CrowdTargets, t.Uint64())
+			}
+		}
+		c.TargetBits = c.CrowdTargets[c.CrowdFinder]
+		for k := 0; k < c.Workers; k++ {
+			c.Stub.Specials = append(c.Stub.Specials, Special{Nonce: workerStart(c.Workers, k) + uint64(64*(1+r.IntN(3))+r.IntN(64)), Kind: fmt.Sprintf("zeros:=%d", z0)})
+		}
+		// near misses for the calls that must not find: hashes one zero short of what THAT call needs (v2: above its
+		// own target hash), in every worker's first batch - before anybody finds; a call that judges them by another
+		// call's threshold accepts one
+		for i := 0; i < c.Crowd; i++ {
+			if i == c.CrowdFinder {
+				continue
+			}
+			kind := "zeros:-1"
+			if c.Version == 2 {
+				kind = pick(r, "above", "above", "zeros:-2")
+			}
+			for k := 0; k < c.Workers; k++ {
+				c.Stub.Specials = append(c.Stub.Specials, Special{Nonce: workerStart(c.Workers, k) + uint64(r.IntN(64)), Kind: kind, Call: i + 1})
+			}
+		}
+	} else {
+		c.CrowdSame = r.IntN(2) == 0
+	}
+	c.CrowdOrder = pick(r, "", "lowest", "lowest", "random")
 	return c
 }
 
@@ -463,7 +534,7 @@ func GenC13(seed uint64, tier string) *Config {
 	}
 	// crowd runs need goroutine identities inherited through instrumented go statements: auto flavours only; the
 	// race-detector variant of that flavour exists mostly for them
-	if (crowdDraw == 0 && Flavour == "auto") || (crowdDraw < 45 && Flavour == "autorace") {
+	if (crowdDraw < 3 && Flavour == "auto") || (crowdDraw < 45 && Flavour == "autorace") {
 		return genCrowd(r, "C13", 0)
 	}
 	maxW := 16
@@ -489,8 +560,20 @@ func GenC13(seed uint64, tier string) *Config {
 		c.Stub = &StubPlan{Seed: r.Uint64(), DecoyPerMille: pick(r, 0, 0, 5, 30)}
 		var good []string
 		if c.Version == 1 {
+			// targets in the middle of a zero-count class mostly, sometimes exactly at or next to a class boundary and
+			// sometimes needing (almost) all 243 zeros: Mine has to return for all of them
 			k := 1 + r.IntN(60)
-			c.TargetBits = math.Float64bits(v1Target(L, k, "safe"))
+			if r.IntN(12) == 0 {
+				k = 60 + r.IntN(184)
+			}
+			mode := pick(r, "safe", "safe", "safe", "exact", "next", "prev")
+			if k == 243 {
+				// the largest score there is: at or above 3^243/len a target is not attainable (244 zeros do not exist),
+				// and whether a float equal to my 3^243/len is "at" the repository's 3^243/len is a matter of one ulp
+				// of math.Pow: stay inside the quantifier
+				mode = "safe"
+			}
+			c.TargetBits = math.Float64bits(v1Target(L, k, mode))
 			good = []string{"zeros:+0", "zeros:+1", "zero", "zeros:+0"}
 			comboKinds = []string{"zeros:-1", "zeros:-2", "zeros:+0"}
 		} else {
@@ -525,7 +608,7 @@ func GenC13(seed uint64, tier string) *Config {
 			c.Stub.Specials, c.Stub.AllQualify, c.MustFind = nil, false, true
 			b := r.IntN(3)
 			for k := 0; k < c.Workers; k++ {
-				c.Stub.Specials = append(c.Stub.Specials, Special{workerStart(c.Workers, k) + uint64(64*b+r.IntN(64)), pick(r, good...)})
+				c.Stub.Specials = append(c.Stub.Specials, Special{Nonce: workerStart(c.Workers, k) + uint64(64*b+r.IntN(64)), Kind: pick(r, good...)})
 			}
 			c.TargetNote = "finds:huddle"
 			c.Strat = StratSpec{Kind: "align", Site: "worker.found", K: pick(r, 3, c.Workers), D: pick(r, 2, 2, 1, 0), Seed: r.Uint64()}
@@ -633,7 +716,7 @@ func GenC11(seed uint64, tier string) *Config {
 		// near misses before the find, then hashes with exactly the required / one more / one fewer zeros
 		nb := 1 + r.IntN(4)
 		for i := 0; i < 1+r.IntN(5); i++ {
-			c.Stub.Specials = append(c.Stub.Specials, Special{workerStart(c.Workers, r.IntN(c.Workers)) + uint64(64*r.IntN(nb)+pick(r, 0, 63, r.IntN(64))), "zeros:-1"})
+			c.Stub.Specials = append(c.Stub.Specials, Special{Nonce: workerStart(c.Workers, r.IntN(c.Workers)) + uint64(64*r.IntN(nb)+pick(r, 0, 63, r.IntN(64))), Kind: "zeros:-1"})
 		}
 		comboKinds = []string{"zeros:-1", "zeros:-1", "zeros:-2", "zeros:+0"}
 		if note := ""; r.IntN(8) == 0 {
@@ -723,8 +806,8 @@ func genDeepPassOver(r *rand.Rand) *Config {
 	h := pick(r, uint64(1)<<14, 1<<15, 1<<16, 1<<16, 1<<17, 1<<18, 1<<19, 1<<20, 1<<20, 1<<20, 1000000, 500000, 100000, uint64(64*(1000+r.IntN(15000))))
 	c.Stub = &StubPlan{Seed: r.Uint64()}
 	c.Stub.Specials = append(c.Stub.Specials,
-		Special{h - 1 - uint64(r.IntN(32)), pick(r, "zero", "zeros:+0", "zeros:+1", "below", "T")},
-		Special{h + uint64(64*(1+r.IntN(3))+r.IntN(64)), "zero"})
+		Special{Nonce: h - 1 - uint64(r.IntN(32)), Kind: pick(r, "zero", "zeros:+0", "zeros:+1", "below", "T")},
+		Special{Nonce: h + uint64(64*(1+r.IntN(3))+r.IntN(64)), Kind: "zero"})
 	c.Strat = StratSpec{Kind: "roundrobin", Seed: r.Uint64()}
 	c.Fault = FaultPlan{Kind: "none"}
 	c.StepCap = int(h/32) + 2000
@@ -816,7 +899,7 @@ func GenC12(seed uint64, tier string) *Config {
 		// decoys of every non-clear class before / around the find
 		for i := 0; i < r.IntN(7); i++ {
 			kind := pick(r, "T+1", "T+2", "Q", "Q+1", "above", "marginal", "zeros:-2", "zeros:-3")
-			c.Stub.Specials = append(c.Stub.Specials, Special{workerStart(c.Workers, r.IntN(c.Workers)) + uint64(64*r.IntN(nb)+lane()), kind})
+			c.Stub.Specials = append(c.Stub.Specials, Special{Nonce: workerStart(c.Workers, r.IntN(c.Workers)) + uint64(64*r.IntN(nb)+lane()), Kind: kind})
 		}
 		comboKinds = []string{"T+1", "T+2", "Q", "Q+1", "above", "above", "marginal", "zeros:-2", "below", "T"}
 		if note := ""; !c.PassOver && r.IntN(6) == 0 {
@@ -835,7 +918,7 @@ func GenC12(seed uint64, tier string) *Config {
 		c.TargetNote += " finds:" + plantFinds(r, c, []string{"T", "T-1", "below", "below", "zeros:+0", "zeros:+1", "zero", "zeros:-1"}, nb)
 		// a guaranteed clear nonce further on, in case every planted find turned out marginal / not qualifying
 		for k := 0; k < c.Workers; k++ {
-			c.Stub.Specials = append(c.Stub.Specials, Special{workerStart(c.Workers, k) + uint64(64*(nb+1+r.IntN(2))+lane()), "zero"})
+			c.Stub.Specials = append(c.Stub.Specials, Special{Nonce: workerStart(c.Workers, k) + uint64(64*(nb+1+r.IntN(2))+lane()), Kind: "zero"})
 		}
 		if r.IntN(10) == 0 {
 			addBefore(r, c)
